@@ -40,10 +40,15 @@ class Lock:
 
 
 # --------------------------------------------------------------------------- build steps
-def extract_consts():
-    rc, out = sh([sys.executable, os.path.join(VERIF, "tools", "extract_consts.py")])
+def extract_consts(pin=None):
+    env = dict(ENV)
+    if pin:
+        env["VERIF_T1_PIN"] = ",".join(pin)
+    rc, out = sh([sys.executable, os.path.join(VERIF, "tools", "extract_consts.py")], env=env)
     try:
-        return json.loads(out.strip().splitlines()[-1])
+        r = json.loads(out.strip().splitlines()[-1])
+        r["rejected"] = list(pin or [])
+        return r
     except Exception:
         return {"changed": False, "fallbacks": ["<extractor failed: %s>" % out[-300:]], "differs_from_pinned": [], "items": 0}
 
@@ -235,13 +240,55 @@ def write_replay(prop, kind, body):
 
 
 def check(prop, tier, seed):
+    """One check.  (T1) is a translator of constants, and a translator can misread a rewritten source: when the values it
+    extracts differ from the pinned ones AND the run with them does not come out clean, the run is repeated with those
+    items pinned.  If that second run is clean in every respect (all theorems, zero disagreements, zero predicate
+    failures) the extraction is rejected as a translator miss - the pinned model is the one that corresponds to the code -
+    and the clean result stands, with the rejection recorded in the evidence.  Otherwise the first run's verdict stands:
+    a real change of a constant makes the pinned model disagree with the implementation too."""
+    import io, contextlib
+    rdir = os.path.join(VERIF, "replays")
+    before = set(glob.glob(os.path.join(rdir, "*.json")))
+    buf_a = io.StringIO()
+    with contextlib.redirect_stdout(buf_a):
+        rc_a, ext_a = check_once(prop, tier, seed, None)
+    differs = ext_a.get("differs_from_pinned") or []
+    if rc_a == 0 or not differs:
+        sys.stdout.write(buf_a.getvalue())
+        return rc_a
+    evp = os.path.join(VERIF, "evidence", prop + ".json")
+    ev_a = open(evp).read() if os.path.exists(evp) else None
+    new_a = set(glob.glob(os.path.join(rdir, "*.json"))) - before
+    buf_b = io.StringIO()
+    with contextlib.redirect_stdout(buf_b):
+        rc_b, ext_b = check_once(prop, tier, seed, differs)
+    new_b = set(glob.glob(os.path.join(rdir, "*.json"))) - before - new_a
+    if rc_b == 0:
+        for f in new_a:
+            os.remove(f)
+        sys.stdout.write(buf_b.getvalue())
+        print("  T1: the values extracted for %s differ from the pinned ones and the model regenerated from them does not check "
+              "against the implementation, while the model with the pinned values does (all theorems, every request): "
+              "extraction rejected as a translator miss, pinned values used" % differs)
+        return 0
+    for f in new_b:
+        os.remove(f)
+    if ev_a is not None:
+        open(evp, "w").write(ev_a)
+    with Lock():
+        extract_consts()
+    sys.stdout.write(buf_a.getvalue())
+    return rc_a
+
+
+def check_once(prop, tier, seed, pin):
     cfg = PROPS[prop]
     t0 = time.time()
     known = load_known()
     log = []
     problems = []          # (kind, detail) — things that no longer check (proof / correspondence / build)
     with Lock():
-        ext = extract_consts()
+        ext = extract_consts(pin)
         ok_thm, out_thm = lake_build(cfg["lean_modules"])
         ok_drv, out_drv = lake_build(["dbgdriver"])
         if ok_thm:
@@ -377,7 +424,9 @@ def check(prop, tier, seed):
             "trusted_base": [
                 "Lean 4.33.0 kernel; axioms used by the property theorems: %s" % sorted({a for ax in axioms.values() if ax for a in ax}),
                 "no native_decide / bv_decide / sorry (source grep: %s)" % ("clean" if not forbidden else forbidden[:3]),
-                "tools/extract_consts.py (T1): %d items regenerated from /repo/src; fallbacks to pinned values: %s; values differing from pinned: %s" % (ext.get("items", 0), ext.get("fallbacks"), ext.get("differs_from_pinned")),
+                "tools/extract_consts.py (T1): %d items regenerated from /repo/src; fallbacks to pinned values: %s; values differing from pinned: %s%s" % (
+                    ext.get("items", 0), [f for f in ext.get("fallbacks", []) if f not in ext.get("rejected", [])], ext.get("differs_from_pinned"),
+                    ("; extracted values REJECTED for %s (the model regenerated from them did not correspond to the implementation, the pinned model does)" % ext["rejected"]) if ext.get("rejected") else ""),
                 "correspondence check (T2): harness/ (Rust, calls the crate in-process), lean/Driver.lean, check.py",
             ] + cfg.get("trusted_base", []),
             "theorems": {t: ("missing" if axioms.get(t) is None else axioms.get(t)) for t in cfg["theorems"]},
@@ -411,7 +460,7 @@ def check(prop, tier, seed):
         print("  " + l)
     for l in lines:
         print(l)
-    return 1 if violations else 0
+    return (1 if violations else 0), ext
 
 
 def shrink(prop, cfg, rec):
